@@ -170,6 +170,99 @@ func tcpOnce(run int, rnd *rand.Rand) (res tcpResult) {
 	return
 }
 
+// tcpChurn: connections arrive in bursts while a host is removed from and added to the host set as fast as
+// possible, so that removals fall into every window of a connection's life (picked, being dialed, dialed,
+// piping). The statistics are read once the service is quiescent.
+func tcpChurn(run int) (res tcpResult) {
+	res = tcpResult{Run: run, Actions: []string{"host-churn"}}
+	b1, err := newEcho()
+	if err != nil {
+		res.Err = err.Error()
+		return
+	}
+	defer b1.close()
+	b2, err := newEcho()
+	if err != nil {
+		res.Err = err.Error()
+		return
+	}
+	defer b2.close()
+	port := sut.FreePort()
+	to := 300 * time.Millisecond
+	idle := 5 * time.Second
+	cfg := &service.Config{
+		Listener:       &service.Listener{Address: &common.Address{Ip: "127.0.0.1", Port: uint32(port)}},
+		ConnectTimeout: &to,
+		IdleTimeout:    &idle,
+		Protocol:       protocol.TCP,
+	}
+	name := sut.UniqueName("tcpchurn")
+	p, err := proc.New(name, cfg, []*host.Host{host.New(b1.addr), host.New(b2.addr)})
+	if err != nil {
+		res.Err = "new: " + err.Error()
+		return
+	}
+	if err := p.Start(); err != nil {
+		res.Err = "start: " + err.Error()
+		return
+	}
+	addr := fmt.Sprintf("127.0.0.1:%d", port)
+	if !sut.WaitListening(addr, 3*time.Second) {
+		res.Err = "not listening"
+		return
+	}
+	stop := make(chan struct{})
+	var toggler sync.WaitGroup
+	toggler.Add(1)
+	go func() {
+		defer toggler.Done()
+		for {
+			select {
+			case <-stop:
+				return
+			default:
+			}
+			p.OnSvcHostRemove([]*host.Host{host.New(b1.addr)})
+			p.OnSvcHostAdd([]*host.Host{host.New(b1.addr)})
+		}
+	}()
+	var workers sync.WaitGroup
+	for w := 0; w < 8; w++ {
+		workers.Add(1)
+		go func() {
+			defer workers.Done()
+			for i := 0; i < 25; i++ {
+				c, err := net.DialTimeout("tcp", addr, time.Second)
+				if err != nil {
+					continue
+				}
+				c.SetDeadline(time.Now().Add(300 * time.Millisecond))
+				c.Write([]byte("hello"))
+				buf := make([]byte, 5)
+				io.ReadFull(c, buf) // may fail: the relay is torn down when its host is removed
+				c.Close()
+			}
+		}()
+	}
+	workers.Wait()
+	close(stop)
+	toggler.Wait()
+	// quiescence: every client connection is closed; give the relays time to notice
+	dl := time.Now().Add(3 * time.Second)
+	for time.Now().Before(dl) {
+		st := sut.ServiceStats(name)
+		if st["downstream.cx_active"] == 0 && st["upstream.cx_active"] == 0 &&
+			st["downstream.cx_total"] == st["downstream.cx_destroy_total"] && st["upstream.cx_total"] == st["upstream.cx_destroy_total"] {
+			break
+		}
+		time.Sleep(10 * time.Millisecond)
+	}
+	res.StopOK = sut.StopWithin(p, 5*time.Second)
+	time.Sleep(30 * time.Millisecond)
+	res.Stats = sut.ServiceStats(name)
+	return
+}
+
 func tcpStats(args []string) error {
 	fs := flag.NewFlagSet("c20-tcp", flag.ContinueOnError)
 	out := fs.String("out", "", "results (ndjson)")
@@ -185,6 +278,15 @@ func tcpStats(args []string) error {
 	rnd := rand.New(rand.NewSource(cli.Seed()))
 	for i := 1; i <= *runs; i++ {
 		if err := w.Write(tcpOnce(i, rnd)); err != nil {
+			return err
+		}
+	}
+	churns := 2
+	if cli.Thorough() {
+		churns = 10
+	}
+	for i := 1; i <= churns; i++ {
+		if err := w.Write(tcpChurn(*runs + i)); err != nil {
 			return err
 		}
 	}
